@@ -34,7 +34,7 @@ def _views_cases(draw, tier):
     steps = []
     for _ in range(nsteps):
         op = draw(st.sampled_from(["set_P", "set_W", "set_Pw", "set_Pw_method", "read_P", "read_W", "read_Pw", "read_2d",
-                                   "read_P", "read_W", "eval"]))
+                                   "read_P", "read_W", "eval", "fork", "switch"]))
         s = {"op": op}
         if op == "set_P":
             s["P"] = draw(gen.points(count, d["dim"]))
@@ -55,9 +55,20 @@ def check_views(case, ctx):
     szs = d["size"]
     kinds = set()
     seq = []
+    others = []          # (object, P, W) of deep copies / originals left behind: their views must keep following THEIR model
     for i, s in enumerate(case["steps"]):
         op = s["op"]
         seq.append(op)
+        if op == "fork":
+            # continue on a deep copy; the object left behind keeps its own model
+            others.append((obj, [list(p) for p in P], list(W)))
+            obj = copy.deepcopy(obj)
+            continue
+        if op == "switch":
+            if others:
+                others.append((obj, [list(p) for p in P], list(W)))
+                obj, P, W = others.pop(0)
+            continue
         if op == "set_P":
             obj.ctrlpts = [list(p) for p in s["P"]]
             P = [list(p) for p in s["P"]]
@@ -100,6 +111,12 @@ def check_views(case, ctx):
         # invariant after every step: the stored homogeneous points are P*w (reading ctrlptsw does not touch the caches)
         ctx.check(_pts_equal(obj.ctrlptsw, build.homogeneous(P, W)), "stored-homogeneous",
                   "after step %d (%s) the stored homogeneous points differ from model P*w" % (i, seq))
+    # every object left behind by a fork still shows its own model
+    for o2, P2, W2 in others:
+        ctx.check(_pts_equal(o2.ctrlpts, P2) and len(o2.weights) == len(W2) and all(_close(x, y) for x, y in zip(o2.weights, W2)) and
+                  _pts_equal(o2.ctrlptsw, build.homogeneous(P2, W2)), "copy-not-independent",
+                  "after %s an object on the other side of a deep copy no longer shows its own control points / weights" % seq)
+    ctx.label("forked", bool(others))
     # final: all views
     ctx.check(_pts_equal(obj.ctrlpts, P), "ctrlpts-view", "final ctrlpts differ from model after %s" % seq)
     ctx.check(all(_close(x, y) for x, y in zip(obj.weights, W)) and len(obj.weights) == len(W), "weights-view", "final weights differ after %s" % seq)
@@ -205,7 +222,7 @@ def check_grid(case, ctx):
 @st.composite
 def _convert_cases(draw, tier):
     d = draw(gen.spline(max_p=3, max_extra=3, vol_max_p=2, vol_max_extra=1, unclamped="maybe"))
-    return {"defn": d, "scale": draw(st.sampled_from([0.25, 0.5, 2.0, 3.0, 8.0])), "unit": draw(st.booleans())}
+    return {"defn": d, "scale": draw(st.sampled_from([0.25, 0.5, 2.0, 3.0, 8.0, 2.0 ** -40, 2.0 ** 30, 2.0 ** -20])), "unit": draw(st.booleans())}
 
 
 def check_convert(case, ctx):
